@@ -16,6 +16,7 @@
 #define VF_LIB "cJSON.c"
 #endif
 #include VF_LIB
+#include "vf_frame.h"
 
 static cJSON A, B, ca[K + 1], cb[K + 1]; static unsigned na, nb; static int bad_call;
 CJSON_PUBLIC(cJSON_bool) cJSON_Compare(const cJSON * const a, const cJSON * const b, const cJSON_bool case_sensitive)
@@ -63,7 +64,9 @@ int main(VF_MAIN_ARGS)
     if ((IN.mode % 4) == 1) pa = 0; else if ((IN.mode % 4) == 2) pb = 0; else if ((IN.mode % 4) == 3) { pb = &A; }
     sA = A; sB = B;
 
+    VF_FRAME_BEGIN();
     r = cJSON_Compare__real(pa, pb, cs);
+    VF_FRAME_END(0);
 
     VF_AP(12, sA.type == A.type && sA.child == A.child && sA.valuestring == A.valuestring && sA.next == A.next && sA.prev == A.prev && sA.string == A.string && sB.type == B.type && sB.child == B.child && sB.valuestring == B.valuestring && memcmp(sa, IN.sa, TS + 1) == 0 && memcmp(sb, IN.sb, TS + 1) == 0, "C12 compare never modifies its arguments");
     VF_AP(12, !bad_call, "C12 recursion only pairs a child of a with a child of b, with the same case flag");
